@@ -259,6 +259,18 @@ def degenerate_atoms():
         ("invisible-comma", mo("\u2063")),
         ("invisible-plus", mo("\u2064")),
         ("invisible-mtext", mtext("\u2063")),
+        # hollow constructs: an element of the right arity whose children are all empty (what an editor leaves behind as a template)
+        ("hollow-msup", el("msup", T("mrow"), T("mrow"))),
+        ("hollow-msub", el("msub", T("mi"), T("mi"))),
+        ("hollow-msubsup", el("msubsup", T("mrow"), T("mrow"), T("mrow"))),
+        ("hollow-mfrac", el("mfrac", T("mrow"), T("mrow"))),
+        ("hollow-msqrt", el("msqrt", T("mrow"))),
+        ("hollow-mroot", el("mroot", T("mrow"), T("mrow"))),
+        ("hollow-munderover", el("munderover", T("mrow"), T("mrow"), T("mrow"))),
+        ("hollow-mover", el("mover", T("mi"), T("mo"))),
+        ("hollow-mtable", el("mtable", el("mtr", el("mtd", T("mrow"))))),
+        ("hollow-mmultiscripts", el("mmultiscripts", T("mrow"), T("none"), T("none"))),
+        ("hollow-mfenced", T("mfenced")),
     ]
 
 
